@@ -4,6 +4,10 @@ Theorems about the executable model of `mxlpy/sbml/_export.py` (Model/C08Export.
 from the repo's source) against the two declarative semantics of Model/C08Sem.lean / C08Doc.lean.
 -/
 import MxlVerif.Lemmas.C08Roundtrip
+import MxlVerif.Lemmas.C08Compartment
+import MxlVerif.Lemmas.C08RoundtripFrom
+import MxlVerif.Lemmas.C08Total
+import MxlVerif.Model.C17Doc
 namespace Mxl.C08
 open Gen
 
@@ -425,14 +429,214 @@ example : ∃ d, exportModel clashModel = .ok d ∧
     docRhs (fun _ _ => none) d [("x", 2), ("y", 3)] "y" = some 117 := by
   refine ⟨_, rfl, ?_, ?_⟩ <;> decide +kernel
 
+/-! ### the exporter is total on its language (Model/C08Language.lean) -/
+
+/-- Every expression that contains neither a construct MathML cannot say (`hasUnsupported`) nor one of the few
+    representable constructs this exporter refuses (`usesRefused`: unary plus, `%`, `floor`, `exp`, `log2`,
+    `math.remainder`, `math.power`) IS exported — whatever its depth and shape: the refusals of the exporter are
+    local to a node, never caused by a combination.  With `C08_math_sound` the export then has the meaning of the
+    expression; with `C08_unsupported_raises` the exporter's domain is known from both sides. -/
+theorem C08_export_total (e : PyExpr) (h : hasUnsupported e = false) (hr : usesRefused e = false) :
+    ∃ m, convert e = .ok m :=
+  ok_of_not_err (convert_total e h hr)
+
+/-- function level: as many arguments as parameters, a body that begins with `return <expression of the language>`,
+    no parameter used as function / module name — then `_sbmlify_fn` returns the MathML tree -/
+theorem C08_fn_export_total (f : PyFn) (hlen : f.params.length = f.args.length)
+    (hlang : bodyInLanguage f.body = true) (hfree : calleeFreeBody f.params f.body = true) :
+    ∃ m, sbmlifyFn f = .ok m := by
+  cases hb : f.body with
+  | nil => rw [hb] at hlang; simp [bodyInLanguage] at hlang
+  | cons s ss =>
+    rw [hb] at hlang hfree
+    cases s with
+    | other => simp [bodyInLanguage] at hlang
+    | ret oe =>
+      cases oe with
+      | none => simp [bodyInLanguage] at hlang
+      | some e =>
+        simp only [bodyInLanguage, Bool.and_eq_true, Bool.not_eq_true'] at hlang
+        simp only [calleeFreeBody, List.all_cons, Bool.and_eq_true] at hfree
+        have h1 : hasUnsupported (renameExpr (f.params.zip f.args) e) = false := by
+          rw [hasUnsupported_rename f.params f.args e hfree.1]; exact hlang.1
+        have h2 : usesRefused (renameExpr (f.params.zip f.args) e) = false := by
+          rw [usesRefused_rename f.params f.args e hfree.1]; exact hlang.2
+        obtain ⟨m, hm⟩ := C08_export_total _ h1 h2
+        have hfirst : bodyFirstReturn = true := rfl
+        exact ⟨m, by simp [sbmlifyFn, zipStrict_total _ _ hlen, bind, Except.bind, handleBody, hfirst, hb, renameStmt,
+          handleBodyFirst, convertStmt, hm, pure, Except.pure]⟩
+
+/-- non-vacuity: a nested conditional with a chained comparison, `np.power`, `math.log10`, `max` of three -/
+def languageExample : PyExpr :=
+  .ifexp (.compare (.const (.num 0)) .lt (.name "x") [(.le, .name "k")])
+    (.call (.lib "np" "power") [.name "x", .const (.num 2)])
+    (.binop .add (.call (.lib "math" "log10") [.name "k"]) (.call (.direct "max") [.name "x", .name "k", .const (.num 1)]))
+example : hasUnsupported languageExample = false ∧ usesRefused languageExample = false := by decide +kernel
+example : usesRefused (.binop .mod (.name "x") (.name "k")) = true ∧
+    usesRefused (.call (.lib "math" "remainder") [.name "x", .name "k"]) = true ∧
+    usesRefused (.call (.lib "np" "remainder") [.name "x", .name "k"]) = false := by decide +kernel
+
+/-! ### the `compartments` option and the species attributes (findings F-C08-14 / -15 / -16, repaired) -/
+
+/-- `write(model, file, compartments=…)` writes, whatever the option, the components `exportModel` writes when the
+    species references avoid a set of names that contains the model's (the compartment ids are in it since F-C08-19);
+    without the option-dependent names that set is `m.names` and the document is `exportModel m`'s. -/
+theorem C08_write_doc_is_export (m : PyModel) (o : Option (List (String × Rat))) (dc : SDocC)
+    (h : writeModel m o = .ok dc) :
+    ∃ t, (∀ n ∈ m.names, n ∈ t) ∧ exportModelFrom t m = .ok dc.doc ∧ exportModel m = exportModelFrom m.names m := by
+  obtain ⟨cs, _, he⟩ := writeModel_ok h
+  exact ⟨refTaken m cs, names_sub_refTaken m cs, (exportModelC_doc he).1, rfl⟩
+
+/-- **Every successful `write` round-trips**, whatever the `compartments` option: for a well-named model the document
+    written holds every component under its name, and its SBML reading gives the model's initial values, derived values,
+    fluxes and derivatives at every state (the four round-trip theorems, for `writeModel` instead of `exportModel`). -/
+theorem C08_write_roundtrip (I : Interp) (m : PyModel) (o : Option (List (String × Rat))) (dc : SDocC)
+    (hw : wellNamed m = true) (h : writeModel m o = .ok dc) :
+    (∀ n ∈ m.vars.map (·.1), n ∈ dc.doc.species.map (·.1)) ∧
+    (∀ n v, pyInit I m m.fuel n = some v → docInit I dc.doc dc.doc.fuel n = some v) ∧
+    (∀ st n v, pyValue I m st m.fuel n = some v → docValue I dc.doc st dc.doc.fuel n = some v) ∧
+    (∀ st x v, (∀ n q, st.lookup n = some q → n ∈ m.names) → pyRhs I m st x = some v → docRhs I dc.doc st x = some v) := by
+  obtain ⟨t, hsub, hx, _⟩ := C08_write_doc_is_export m o dc h
+  have hE := exported_of_exportFrom hsub hw hx
+  refine ⟨exported_species_keyFrom hw hx, ?_, ?_, ?_⟩
+  · intro n v hv
+    exact docInit_mono I dc.doc (Nat.le_of_succ_le hE.fuel) n v
+      (init_transfer I hE (fnsFree_of_wellNamed hw) m.fuel n v hv)
+  · intro st n v hv
+    exact docValue_mono I dc.doc st (Nat.le_of_succ_le hE.fuel) n v
+      (value_transfer I hE (fnsFree_of_wellNamed hw) st m.fuel n v hv)
+  · intro st x v hst hv
+    rw [pyRhs_eq] at hv
+    rw [docRhs_eq]
+    exact rhs_list I hE (fnsFree_of_wellNamed hw) st hst x hE.rxns (fun _ h => h) v hv
+
+/-- no dangling compartment (F-C08-15): every species is written, with the compartment of each being one of
+    the compartments the file declares; a model with variables has exactly one species entry per species. -/
+theorem C08_species_compartment_declared (m : PyModel) (o : Option (List (String × Rat))) (dc : SDocC)
+    (h : writeModel m o = .ok dc) :
+    (∀ s ∈ dc.species, s.compartment ∈ dc.compartments.map (·.1)) ∧
+    (m.vars ≠ [] → dc.species.map (·.id) = dc.doc.species.map (·.1)) := by
+  obtain ⟨cs, _, he⟩ := writeModel_ok h
+  obtain ⟨_, hcs, comp, hcomp, hsp⟩ := exportModelC_doc he
+  constructor
+  · intro s hs
+    rw [hsp] at hs
+    cases comp with
+    | none => simp [speciesAttrs] at hs
+    | some c =>
+      simp only [speciesAttrs, List.mem_map] at hs
+      obtain ⟨kv, _, rfl⟩ := hs
+      rw [hcs]
+      exact speciesCompartment_mem hcomp
+  · intro hv
+    cases hvars : m.vars with
+    | nil => exact absurd hvars hv
+    | cons v vs =>
+      rw [hvars] at hcomp
+      obtain ⟨c, rfl⟩ := speciesCompartment_some hcomp
+      rw [hsp]
+      simp [speciesAttrs, Function.comp_def]
+
+/-- the species are amounts (F-C08-14): for every size of the compartment — also 0 — the identifier of a written
+    species stands for the value the model gave it and its derivative is Σ stoichiometry × rate, undivided. -/
+theorem C08_species_is_amount (m : PyModel) (o : Option (List (String × Rat))) (dc : SDocC)
+    (h : writeModel m o = .ok dc) :
+    ∀ s ∈ dc.species, ∀ size v rate : Rat,
+      speciesSymbol s.hosu size (initialAmountOf s.initAmount size v) = v ∧ symbolRate s.hosu size rate = rate := by
+  obtain ⟨cs, _, he⟩ := writeModel_ok h
+  obtain ⟨_, _, comp, _, hsp⟩ := exportModelC_doc he
+  intro s hs size v rate
+  rw [hsp] at hs
+  cases comp with
+  | none => simp [speciesAttrs] at hs
+  | some c =>
+    simp only [speciesAttrs, List.mem_map] at hs
+    obtain ⟨kv, _, rfl⟩ := hs
+    have h1 : speciesHosu = true := rfl
+    have h2 : speciesInitAmount = true := rfl
+    simp [speciesSymbol, initialAmountOf, symbolRate, h1, h2]
+
+/-- what the older exporter wrote (a concentration, hasOnlySubstanceUnits = false) means in a compartment of
+    size 2: the derivative 6 of the model is read as 3, the value 2 survives (F-C08-14 witness) -/
+example :
+    symbolRate false 2 6 = 3 ∧ speciesSymbol false 2 (initialAmountOf false 2 2) = 2 := by
+  decide +kernel
+
+/-- composition with the import side (C17's document semantics, run by C17's driver handler): a species with the
+    attributes the exporter writes is read by `symOfAmount` / `amountOfSym` / `symInit` as the plain quantity it was in the
+    model — in every document, whatever the compartments and their sizes -/
+theorem C08_written_species_import_reading (d : Mxl.C17.Doc) (s : Mxl.C17.Species)
+    (hh : s.hosu = speciesHosu) (ha : s.isAmount = speciesInitAmount) :
+    (∀ a : Rat, Mxl.C17.symOfAmount d s a = a ∧ Mxl.C17.amountOfSym d s a = a) ∧ Mxl.C17.symInit d s = s.init := by
+  have h1 : speciesHosu = true := rfl
+  have h2 : speciesInitAmount = true := rfl
+  rw [h1] at hh; rw [h2] at ha
+  refine ⟨fun a => by simp [Mxl.C17.symOfAmount, Mxl.C17.amountOfSym, hh], ?_⟩
+  cases hi : s.init <;> simp [Mxl.C17.symInit, Mxl.C17.symOfAmount, hh, ha, hi]
+
+/-- compartment ids and component names stay apart (F-C08-16): no compartment of a written file is called like a
+    parameter, variable, derived quantity or reaction of the model; the default call never fails on that account. -/
+theorem C08_compartment_ids_apart (m : PyModel) (o : Option (List (String × Rat))) (dc : SDocC)
+    (h : writeModel m o = .ok dc) : ∀ c ∈ dc.compartments, m.names.contains c.1 = false := by
+  obtain ⟨cs, hc, he⟩ := writeModel_ok h
+  rw [(exportModelC_doc he).2.1]
+  exact chooseCompartments_apart hc
+
+theorem C08_default_compartment_total (m : PyModel) :
+    ∃ n, chooseCompartments m.names none = .ok [(n, (defaultCompartmentSize : Rat))] :=
+  chooseCompartments_default_total m.names
+
+/-- variables but no compartment: the export raises (a species needs one) -/
+theorem C08_no_compartment_refused (m : PyModel) (hv : m.vars ≠ []) :
+    ∃ err, writeModel m (some []) = .error err := by
+  have hr : compartmentClashRefused = true := rfl
+  have hl : speciesCompartmentLit = none := rfl
+  simp only [writeModel, chooseCompartments, hr, List.any_nil, Bool.and_false, Bool.false_eq_true, if_false,
+    bind, Except.bind, exportModelC]
+  cases h1 : foldE exportParam SDoc.empty m.params with
+  | error e => exact ⟨e, rfl⟩
+  | ok d1 =>
+    simp only []
+    cases h2 : foldE (fun d kv => exportRule d kv.1 kv.2) d1 m.derived with
+    | error e => exact ⟨e, rfl⟩
+    | ok d2 =>
+      simp only []
+      cases hvars : m.vars with
+      | nil => exact absurd hvars hv
+      | cons v vs => exact ⟨.valueError "SBML species need a compartment, but `compartments` is empty", by simp [speciesCompartment, hl]⟩
+
+/-- `_free_reference` terminates: within `len(taken) + 1` rounds it finds a name that is not taken, so the name of
+    a species reference (and of the default compartment) always exists — the `unreachable` error of the model is. -/
+theorem C08_free_reference_total (taken : List String) (x : String) :
+    (∃ r, freshName taken x (taken.length + 1) = some r ∧ taken.contains r = false) ∧
+    (∃ n, refName taken x = .ok (n, n :: taken) ∧ taken.contains n = false) :=
+  ⟨freshName_total taken x, refName_total taken x⟩
+
+/-- non-vacuity: the former counterexample of F-C08-16 — a parameter called `compartment` — is written with the
+    default compartment `compartment_`, the species in it, as amounts -/
+example : ∃ dc, writeModel ⟨[("compartment", .val 3)], [("x", .val 2)], [], []⟩ none = .ok dc ∧
+    dc.compartments = [("compartment_", 1)] ∧ dc.species = [⟨"x", "compartment_", true, true⟩] := by
+  refine ⟨_, rfl, ?_, ?_⟩ <;> decide +kernel
+example : ∃ dc, writeModel clashModel (some [("cell", 4), ("c2", 1)]) = .ok dc ∧
+    dc.species.map (·.compartment) = ["cell", "cell"] := by
+  refine ⟨_, rfl, ?_⟩; decide +kernel
+example : ∃ err, writeModel clashModel (some [("r1", 4)]) = .error err := ⟨_, rfl⟩
+/-- the former F-C08-19 counterexample: a compartment called `yref`; the references are `yref_` and `yref__` -/
+example : ∃ dc, writeModel clashModel (some [("yref", 5)]) = .ok dc ∧ dc.doc.rules.map (·.1) = ["yref_", "yref__"] ∧
+    docRhs (fun _ _ => none) dc.doc [("x", 2), ("y", 3)] "y" = some 117 := by
+  refine ⟨_, rfl, ?_, ?_⟩ <;> decide +kernel
+
 /-! ### facts about the tables and structural choices read from `_export.py` -/
 
 theorem C08_tables :
     ifexpOrder = [.body, .test, .orelse] ∧ computedSide = .product ∧ negSide = .reactant ∧
     nonnegSide = .product ∧ unknownCallRaises = true ∧ arityChecked = true ∧ logWithBase = true ∧
     iaSetterExists = true ∧ libParents = pyLibs ∧ binaryNumpyOnly = true ∧ bodyFirstReturn = true ∧
-    refFresh = true ∧ refSuffix = "ref" ∧
-    exportOrder = [.params, .derivedParams, .vars, .derivedVars, .rxns] := by
+    refFresh = true ∧ refSuffix = "ref" ∧ refAvoidsCompartments = true ∧
+    exportOrder = [.params, .derivedParams, .vars, .derivedVars, .rxns] ∧
+    speciesHosu = true ∧ speciesInitAmount = true ∧ speciesCompartmentLit = none ∧
+    defaultCompartmentId = "compartment" ∧ defaultCompartmentSize = 1 ∧ defaultCompartmentFresh = true ∧
+    compartmentClashRefused = true := by
   decide
 
 /-- why `math.remainder` must not be exported as `rem` (finding F-C08-11, repaired): the IEEE remainder
